@@ -2,10 +2,10 @@
 """seedtable.py: markdown table of the stored seeds (round 3: ids 4..6, round 4: ids 7, 8) from their meta.json."""
 import glob, json, os, re
 props = sorted({os.path.basename(d.rstrip('/')).split('-')[0] for d in glob.glob('/verif/seeded/*/')})
-print('| property | 4 | 5 | 6 | 7 | 8 |'); print('|----------|---|---|---|---|---|')
+print('| property | 4 | 5 | 6 | 7 | 8 | 9 | 10 |'); print('|----------|---|---|---|---|---|---|---|')
 for p in props:
     cells = []
-    for i in (4, 5, 6, 7, 8):
+    for i in (4, 5, 6, 7, 8, 9, 10):
         f = f'/verif/seeded/{p}-{i}/meta.json'
         if not os.path.exists(f):
             cells.append('-'); continue
